@@ -303,10 +303,12 @@ class AsyncRun:
                 tok = dict((k.lower(), v) for k, v in resp.headers).get(b"x-tok")
                 out["tok"] = tok.decode() if tok is not None else ""
                 self.event("Got", r=name, status=resp.status, tok=out["tok"], route=self.route_of(call), sent_on=self.streams_with_token(call.tok))
-                await self._gate(name, "read")
                 body = b""
                 out["body"] = body
                 try:
+                    # (inside the try: a caller that is cancelled while it holds the response
+                    #  still closes it - letting go of the response is the CALLER's duty)
+                    await self._gate(name, "read")
                     if call.consume == "all":
                         async for chunk in resp.aiter_stream():
                             body += chunk
